@@ -7,6 +7,8 @@ package main
 //   - a function literal that calls recover() is only ever deferred                (recover is inert anywhere else)
 
 import (
+	"go/token"
+	"go/types"
 	"strings"
 
 	"golang.org/x/tools/go/ssa"
@@ -241,5 +243,133 @@ func recoverOnlyDeferred(c *Ctx) {
 	}
 	if n < 3 {
 		c.undecided("recover/sites", "fewer recovering functions than expected")
+	}
+}
+
+// nilChannelUse: a channel variable that is nil on some path (`var ch chan T; if cond { ch = make(...) }`) is closed
+// or sent to only where that path is excluded: closing a nil channel panics, sending to one blocks for ever. The
+// repository's shape: the variable is declared in a stage constructor, made under a flag, captured by the stage body,
+// and used there under the same flag. For every captured channel cell whose only stores are conditional, every close /
+// send through it in the closure must be dominated by facts that imply the conditions of the store (compared through
+// the captured variables: a fact about a cell in the parent and about the free variable bound to it are the same fact).
+func nilChannelUse(c *Ctx) {
+	n := 0
+	for _, g := range c.AllFns {
+		parent := g.Parent()
+		if parent == nil {
+			continue
+		}
+		// the closure value and its bindings
+		var mc *ssa.MakeClosure
+		eachInstr(parent, func(in ssa.Instruction) {
+			if m, ok := in.(*ssa.MakeClosure); ok && m.Fn == g {
+				mc = m
+			}
+		})
+		if mc == nil {
+			continue
+		}
+		binding := map[*ssa.FreeVar]ssa.Value{}
+		for i, fv := range g.FreeVars {
+			if i < len(mc.Bindings) {
+				binding[fv] = mc.Bindings[i]
+			}
+		}
+		// canonical variable of a fact: the cell it is a load of (through the binding when inside the closure)
+		canon := func(v ssa.Value) ssa.Value {
+			u, ok := strip(v).(*ssa.UnOp)
+			if !ok || u.Op != token.MUL {
+				return strip(v)
+			}
+			if fv, ok := u.X.(*ssa.FreeVar); ok {
+				if b := binding[fv]; b != nil {
+					return b
+				}
+			}
+			return u.X
+		}
+		for fv, cell := range binding {
+			al, ok := cell.(*ssa.Alloc)
+			if !ok {
+				continue
+			}
+			pt, ok := al.Type().Underlying().(*types.Pointer)
+			if !ok {
+				continue
+			}
+			if _, isChan := pt.Elem().Underlying().(*types.Chan); !isChan {
+				continue
+			}
+			// stores to the cell in the parent
+			var stores []*ssa.Store
+			eachInstr(parent, func(in ssa.Instruction) {
+				if st, ok := in.(*ssa.Store); ok && st.Addr == ssa.Value(al) {
+					stores = append(stores, st)
+				}
+			})
+			conditional := len(stores) == 0
+			for _, st := range stores {
+				if !st.Block().Dominates(mc.Block()) {
+					conditional = true
+				}
+			}
+			if !conditional {
+				continue
+			}
+			// uses in the closure
+			eachInstr(g, func(in ssa.Instruction) {
+				var ch ssa.Value
+				what, effect := "", ""
+				switch x := in.(type) {
+				case ssa.CallInstruction:
+					if isBuiltinClose(x) {
+						ch, what, effect = x.Common().Args[0], "close", "close of a nil channel panics"
+					}
+				case *ssa.Send:
+					ch, what, effect = x.Chan, "send", "a send on a nil channel blocks for ever"
+				case *ssa.Select:
+					for _, st := range x.States {
+						if st.Send != nil {
+							if u, ok := strip(st.Chan).(*ssa.UnOp); ok && u.X == ssa.Value(fv) {
+								ch, what, effect = st.Chan, "send", "a send on a nil channel is never chosen: the value is dropped or the select blocks"
+							}
+						}
+					}
+				}
+				if ch == nil {
+					return
+				}
+				u, ok := strip(ch).(*ssa.UnOp)
+				if !ok || u.X != ssa.Value(fv) {
+					return
+				}
+				n++
+				useFacts := factsAt(in.Block())
+				good := false
+				for _, st := range stores {
+					implied := true
+					for _, sf := range factsAt(st.Block()) {
+						nsf := normFact(sf)
+						found := false
+						for _, uf := range useFacts {
+							nuf := normFact(uf)
+							if canon(nuf.V) == canon(nsf.V) && nuf.Pol == nsf.Pol {
+								found = true
+							}
+						}
+						if !found {
+							implied = false
+						}
+					}
+					if implied {
+						good = true
+					}
+				}
+				c.check(good, "nil-channel/"+c.fnName(g)+"/"+freeVarName(fv)+"/"+what, c.ipos(in), "the conditionally made channel is used only under the condition it was made under", "the channel is made only under a condition that does not hold here: "+effect)
+			})
+		}
+	}
+	if n < 2 {
+		c.undecided("nil-channel/sites", "fewer uses of conditionally made channels than expected")
 	}
 }
